@@ -36,6 +36,10 @@ func voidVal() Val { return Val{T: types.NewTuple()} }
 
 func (x *Exec) doCallVals(st *State, fr *Frame, c *ssa.CallCommon, fv Val, argv []Val, pos token.Pos, k func(*State, Val)) {
 	rt := resultType(c)
+	if st.called == nil {
+		st.called = map[string]bool{}
+	}
+	st.called[calleeName(c)] = true
 	if x.fc != nil && x.fc.AtCalls != nil {
 		name := calleeName(c)
 		for i, ac := range x.fc.AtCalls[name] {
@@ -532,6 +536,20 @@ func (x *Exec) doGo(st *State, fr *Frame, in *ssa.Go) {
 		name = "invoke " + c.Method.Name()
 	}
 	st.spawned = append(st.spawned, name)
+	// the body of a goroutine is verified as a function of its own, against its own contract: a `go` statement
+	// whose callee carries no contract starts code nobody verifies, and its effects are missing from this path
+	contracted := false
+	if callee != nil {
+		_, contracted = x.w.cs.Funcs[funcKey(callee)]
+		if !contracted && callee.Origin() != nil {
+			_, contracted = x.w.cs.Funcs[funcKey(callee.Origin())]
+		}
+	} else if c.IsInvoke() {
+		_, contracted = x.w.cs.Funcs["iface:"+namedKey(c.Value.Type())+"."+c.Method.Name()]
+	}
+	if !contracted && x.fc != nil {
+		x.oblige(st, "spawn", x.site("go", in.Pos()), "contracted", x.fc.Tags, "false", in.Pos(), "go "+name+": the goroutine body has no contract (its effects are neither verified nor part of this function's post-state)")
+	}
 	if callee != nil {
 		if fc, ok := x.w.cs.Funcs[funcKey(callee)]; ok && len(fc.Spawns) > 0 {
 			var argv []Val
